@@ -7,7 +7,8 @@
       shapes) followed by the mini VM (the `Next()` loop) yields what a SMALL reference evaluator
       (`MiniVM.eval`, Model/MiniVM.lean) prescribes, on the fragment `.`, constants, `|`, `,`, `.[]`,
       `.name`, `empty`, `[q]`, `error`, `try`, `try … catch`, `if`, `//`, `$x`, `as`, `reduce`,
-      `foreach`, top-level recursive functions with one filter parameter.
+      `foreach`, object construction `{(k): v, a: v, …}`, top-level recursive functions with one
+      filter parameter.
 
   This file connects them.  `MiniSpec.toSyntax` (Model/MiniSpec.lean) translates a mini program into
   jq abstract syntax — `def f0(g): …; def f1(g): …; main`, the text the harness prints for it — and
@@ -24,8 +25,19 @@
   `t[]`, `t.name`, `t?`, `t[]?`, `t.name?` (compileTermSuffix: `t | .[]`, `t | .name`, `try t`,
   `t | try .[]`, `t | try .name`).  For these the theorems say that `Spec.eval`'s equation for the
   jq form agrees with the mini evaluator on the construct it is compiled as (`exSugar`).
+  OBJECT CONSTRUCTION `{e₁, …, eₙ}` (n ≥ 1; entries `(K): V`, `name: V`, `"name": V`, `{name}`, `{"name"}`,
+  `{$x}`) is read
+  anywhere (rule `Tr.obj`, spelled out by `object_reading`, `object_reading_shorthands`; `exObjTie`,
+  `exObjFn`) as the mini query
+  `delayN n (obj spine)`: `delay` emits no instruction (`delay_same_code`) and gives the mini reference
+  evaluator the unit of fuel `Spec.evalObject` spends per entry, so that the fuel bound `N ≥ 6·n`
+  stays true; the object case of the simulation is `object_simulation_step` (with
+  `object_built_as_Spec_evalObject` of Props/C01Compile.lean for `opobject`'s loop).  The compiled
+  program does not depend on the `delay`s (`delay_emits_no_code` of Props/C01Compile.lean:
+  `compileProg p.strip = compileProg p`), so the machine runs the code the `mini` stream compares.  Not
+  read: keys with string interpolation `"a\(q)": V`, `$x: V`, and `{}` (a constant).
   NOT covered, because the mini development has no counterpart whose code compiler.go would emit:
-  objects, natives and arithmetic, `label`/`break` (hence `first`, `limit`, `until`, …), `?//`,
+  natives and arithmetic, `label`/`break` (hence `first`, `limit`, `until`, …), `?//`,
   destructuring patterns, paths and updates, string interpolation, `."str"` / `.[0]` (without the
   index-key optimisation they are `_index` native calls), nested or multi-parameter or `$`-parameter
   functions, jq-defined builtins (`select`, `map`, `recurse` are compiled from builtin.jq into
@@ -38,7 +50,7 @@
       of `Spec.eval` has NO tracking context and NO `pend` flag (`spec_outputs_untracked`);
     * the stop is compared through `trStop`: `done ↦ done`; `err e ↦ err (trErr e)` with
       `notIter v ↦ builtin "iterator" [v]`, `user v ↦ user v`, `idx v k ↦` the `builtin` error
-      `funcIndex2 v k` returns; `diverge ↦ fuel`;
+      `funcIndex2 v k` returns, `keyNotStr k ↦ builtin "objectKeyNotString" [k]`; `diverge ↦ fuel`;
     * the host-library parameter `IterMsg` of the mini development is instantiated with what
       `Spec.eval` uses (`specMsg`: `funcIndex2`, `errMessage`).
 
@@ -77,6 +89,7 @@
   Proofs: Proofs/MiniSpec{Rel,Loop,Env,Tie,Lit,Prog,Term}.lean.
 -/
 import Gojq.Proofs.MiniSpecTerm
+import Gojq.Proofs.MiniVMStrip
 import Gojq.Generated.BuiltinDefs
 namespace Gojq.C01Tie
 open Gojq Gojq.MiniVM Gojq.MiniSpec
@@ -308,5 +321,217 @@ example : exTryCont.WF ∧ tieOK exTryCont = true ∧ ND (miniRun exTryCont 3 ex
       | .finished [] (some (.plain (.user (.num (.int 1))))) => true | _ => false) = true :=
   ⟨⟨by simp [exTryCont], by simp [Q.Closed, exTryCont], by simp [Q.HasParam, exTryCont]⟩, by decide,
     by decide +kernel, by decide +kernel, by decide +kernel⟩
+
+/-! ## jq-defined forms that are inside the fragment through their definitions -/
+
+/-- `def select(g): if g then . else empty end;` (builtin.jq's definition, as function `f0`) -/
+def selectBody : Q := .ite .param .id .empty
+/-- `def map(g): [.[] | g];` (as `f1`) -/
+def mapBody : Q := .arr (.pipe .iter .param)
+/-- `def recurse(g): ., (g | recurse(g));` (as `f2`; builtin.jq writes it with a nested definition:
+    `def recurse(f): def r: ., (f | r); r;` — not the same instructions) -/
+def recurseBody : Q := .comma .id (.pipe .param (.call1 2 .param))
+
+/-- `def f0(g): if g then . else empty end; def f1(g): [.[] | g]; def f2(g): ., (g | f2(g)); main` -/
+def withPrelude (main : Q) : Prog := ⟨[selectBody, mapBody, recurseBody], main⟩
+
+/-- `select`, `map`, `recurse(f)` written as ordinary one-parameter definitions ARE programs of the
+    proved fragment: with them in front, every main query of the fragment that calls `f0 f1 f2` is
+    a well-scoped program … -/
+theorem prelude_wf (main : Q) (hc : main.Closed 3 []) (hp : ¬ main.HasParam) : (withPrelude main).WF := by
+  refine ⟨?_, hc, hp⟩
+  intro q hq
+  simp only [withPrelude, List.mem_cons, List.not_mem_nil, or_false] at hq
+  rcases hq with rfl | rfl | rfl <;> simp [selectBody, mapBody, recurseBody, Q.Closed, withPrelude]
+
+/-- … that passes the side conditions of the translation whenever the main query does … -/
+theorem prelude_tieOK (main : Q) (h1 : qLitOK main = true) :
+    tieOK (withPrelude main) = true := by
+  simp [tieOK, ordered, orderedFrom, withPrelude, selectBody, mapBody, recurseBody, callsBelow, qLitOK, h1]
+
+/-- … so that compile-then-run returns exactly what `Spec.eval` prescribes for the jq program
+    `def f0(g): if g then . else empty end; def f1(g): [.[] | g]; def f2(g): ., (g | f2(g)); main`
+    (the instance of `compile_refines_Spec_eval`). -/
+theorem select_map_recurse_refine_Spec_eval (main : Q) (hc : main.Closed 3 []) (hp : ¬ main.HasParam)
+    (hl : qLitOK main = true) (cfg : Spec.Cfg) (hcfg : NoShadow cfg)
+    (s : Spec.St) (hs : Clean s) (n N : Nat) (hnd : ND (miniRun (withPrelude main) n s.v).stop)
+    (hdef : Definite (specRun (withPrelude main) cfg N s).stop) :
+    ∃ e : Option MiniVM.Err,
+      Run (compileProg (withPrelude main)) (initCfg (compileProg (withPrelude main)) s.v)
+        (specRun (withPrelude main) cfg N s).vals e ∧
+      (specRun (withPrelude main) cfg N s).stop = stopOfErr e := by
+  obtain ⟨htr, hord, _⟩ := toSyntax_is_reading (withPrelude main) (prelude_tieOK main hl)
+  exact compile_refines_Spec_eval (withPrelude main) (prelude_wf main hc hp) hord htr cfg hcfg s hs n N hnd hdef
+
+/-- `f1(f0(.)), [f2(try .[])]`, i.e. `map(select(.)), [recurse(.[]?)]` (= `[..]`) -/
+def exPrelude : Prog := withPrelude (.comma (.call1 1 (.call1 0 .id)) (.arr (.call1 2 (.try_ .iter))))
+def exInput3 : V := .arr [.arr [.num (.int 7)], .bool false]
+
+/-- on `[[7], false]`: `[[7]]` and `[[[7],false],[7],7,false]` — the machine, the mini evaluator
+    (fuel 16) and `Spec.eval` (fuel 96 = 6·16) agree -/
+example : exPrelude.WF ∧ tieOK exPrelude = true ∧ ND (miniRun exPrelude 16 exInput3).stop ∧
+    ((specRun exPrelude Spec.cfg0 96 (inputSt exInput3)).vals == (miniRun exPrelude 16 exInput3).outs) = true ∧
+    (match runProg exPrelude 2000 exInput3 with
+      | .finished [.arr [.arr [.num (.int 7)]],
+                   .arr [.arr [.arr [.num (.int 7)], .bool false], .arr [.num (.int 7)], .num (.int 7), .bool false]] none => true
+      | _ => false) = true :=
+  ⟨prelude_wf _ (by simp [Q.Closed]) (by simp [Q.HasParam]), by decide, by decide +kernel, by decide +kernel, by decide +kernel⟩
+
+
+/-- what `select(a)` means: the input, once for every output of `a` that is neither `null` nor `false` -/
+theorem select_law [IterMsg] (defs : Name → Q) (h0 : defs 0 = selectBody) (n : Nat) (g : Ctx) (ρ : Env) (a : Q) (v : V) :
+    eval defs (n+3) g ρ (.call1 0 a) v =
+      (eval defs n ⟨g.fn, []⟩ ⟨ρ.clo, []⟩ a v).bindG fun w => if falsy w then ⟨[], .done⟩ else ⟨[v], .done⟩ := by
+  simp only [eval, h0, selectBody]
+  rfl
+
+/-- what `map(a)` means on an array: the array of all outputs of `a` on the elements, in order;
+    the first error ends it -/
+theorem map_law [IterMsg] (defs : Name → Q) (h1 : defs 1 = mapBody) (n : Nat) (g : Ctx) (ρ : Env) (a : Q) (xs : List V) :
+    eval defs (n+5) g ρ (.call1 1 a) (.arr xs) =
+      match Res.bindL (eval defs (n+1) ⟨g.fn, []⟩ ⟨ρ.clo, []⟩ a) xs .done with
+      | ⟨o, .done⟩ => ⟨[.arr o], .done⟩
+      | ⟨_, st⟩ => ⟨[], st⟩ := by
+  simp only [eval, h1, mapBody, iterItems]
+  rfl
+
+/-! ## object construction -/
+
+/-- `delay` emits no instruction: the code of `delayN m q` is the code of `q` -/
+theorem delay_same_code [IterMsg] (entry : Name → Nat) (g : Ctx) (e p : Nat) (q : Q) (m : Nat) :
+    compile entry g e p (delayN m q) = compile entry g e p q := by
+  induction m with
+  | zero => rfl
+  | succ m ih => simpa [delayN, compile] using ih
+
+/-- How `Tr` reads an object term, spelled out for two entries `{(K1): V1, name: V2}`: it is compiled
+    as `obj (objSnocC (objSnoc objStart k1 v1) "name" v2)` — instructions `store r; load r; k1; load r;
+    v1; push "name"; load r; v2; object 2` — and the mini reference evaluator gets 2 more units of
+    fuel (`delay`, no instruction). -/
+theorem object_reading {k1 v1 v2 : Q} {K1 V1 V2 : Query} (nm : Bytes) (h1 : Tr k1 K1) (h2 : Tr v1 V1) (h3 : Tr v2 V2) :
+    Tr (delayN 2 (.obj (.objSnocC (.objSnoc .objStart k1 v1) (.str nm) v2)))
+      (T (.object [.mk (.query K1) (some V1), .mk (.name nm) (some V2)])) :=
+  .obj (.objSnocC nm (.objSnoc .objStart h1 h2) h3) (by simp [Q.IsSpine]) (by simp) (by simp [Q.entries])
+
+/-- The object case of the simulation (what `mini_eval_eq_spec_eval` uses for `{…}`), by itself: if
+    every key and value query of the entries is simulated at every `Spec` fuel (`≥ lo` when the
+    claim includes "does not run out of fuel"; `Hidx`, `Hvar`: the values `.name` / `$x` of the shorthand
+    entries `{name}` / `{$x}`, which `Spec.evalObject` evaluates by its own equations), then `Spec.evalObject` — with fuel above `lo` + the
+    number of entries — is simulated by the mini evaluator's `evalEntries`: same nesting of the
+    loops (first key outermost, each key before its value), same accumulated pairs, same final
+    object or key error. -/
+theorem object_simulation_step {b : Bool} (cfg : Spec.Cfg) (env : Spec.Env) (s : Spec.St) (hs : Clean s)
+    (ev : Q → V → MiniVM.Res) (lo : Nat) (Pq : Q → Prop)
+    (H : ∀ (M : Nat) (q : Q) (A : Query) (s' : Spec.St), Tr q A → Pq q → Clean s' → s'.v = s.v → (b = true → lo ≤ M) →
+      ND (ev q s.v).stop → Rel b (Spec.eval M cfg env A s') (ev q s.v))
+    (Hidx : ∀ (nm : Bytes) (s' : Spec.St), Clean s' → s'.v = s.v → ND (ev (.index (.str nm)) s.v).stop →
+      Rel b (Spec.navStep s' (.str nm)) (ev (.index (.str nm)) s.v))
+    (Hvar : ∀ (M : Nat) (x : Nat) (s' : Spec.St), Pq (.var x) → Clean s' → s'.v = s.v → (b = true → lo ≤ M) →
+      ND (ev (.var x) s.v).stop → Rel b (Spec.evalCall M cfg env (vname x) [] s') (ev (.var x) s.v))
+    (es : List (EKey × Q)) (kvs : List ObjKV) (htr : TrEntries Pq es kvs) (fuel : Nat) (acc : List (V × V))
+    (hf : b = true → lo + es.length < fuel) (hnd : ND (evalEntries ev s.v es acc).stop) :
+    Rel b (Spec.evalObject fuel cfg env kvs acc s none) (evalEntries ev s.v es acc) :=
+  rel_evalObject env s hs ev lo Pq H Hidx Hvar es kvs htr fuel acc none rfl hf hnd
+
+/-- The shorthand entries and the quoted key are read too: `{"k": V, name, "name", $v3}` is compiled as
+    `"k": V, name: .name, name: .name, v3: $v3` (entries with a constant key: `push key; load r; value`). -/
+theorem object_reading_shorthands {v : Q} {V : Query} (k nm nm' : Bytes) (x : Nat) (h : Tr v V) :
+    Tr (delayN 4 (.obj (.objSnocC (.objSnocC (.objSnocC (.objSnocC .objStart (.str k) v) (.str nm) (.index (.str nm)))
+          (.str nm') (.index (.str nm'))) (.str (B (Spec.dropFirst (vname x)))) (.var x))))
+      (T (.object [.mk (.str (.lit k)) (some V), .mk (.name nm) none, .mk (.str (.lit nm')) none, .mk (.var (vname x)) none])) :=
+  .obj (.objVar x (.objShortS nm' (.objShort nm (.objSnocS k .objStart h)))) (by simp [Q.IsSpine]) (by simp) (by simp [Q.entries])
+
+/-- `{(("a","b")): .[], c: .}` with the two units of extra fuel -/
+def exObjTie : Prog :=
+  ⟨[], delayN 2 (.obj (.objSnocC (.objSnoc .objStart (.comma (.const (.str [97])) (.const (.str [98]))) .iter) (.str [99]) .id))⟩
+
+def exObjTieSyntax : Query :=
+  T (.object [.mk (.query (.binop [] .comma (T (.str (.lit [97]))) (T (.str (.lit [98]))))) (some (.term [] (.mk .identity [.iter]))),
+              .mk (.name [99]) (some (T .identity))])
+
+/-- the jq program `{("a","b"): .[], c: .}` is read as `exObjTie`; on `[7,8]` the machine (800 steps),
+    the mini evaluator (fuel 5) and `Spec.eval` (fuel 30 = 6·5) give the same four objects -/
+example : exObjTie.WF ∧ TrProg exObjTie [] exObjTieSyntax ∧ ND (miniRun exObjTie 5 exInput2).stop ∧
+    ((specRunOf [] exObjTieSyntax Spec.cfg0 30 (inputSt exInput2)).vals == (miniRun exObjTie 5 exInput2).outs) = true ∧
+    (miniRun exObjTie 5 exInput2).outs.length = 4 ∧
+    (match runProg exObjTie 800 exInput2 with
+      | .finished outs none => outs == (specRunOf [] exObjTieSyntax Spec.cfg0 30 (inputSt exInput2)).vals
+      | _ => false) = true :=
+  ⟨⟨by simp [exObjTie], by simp [Q.Closed, Q.IsSpine, exObjTie, delayN], by simp [Q.HasParam, exObjTie, delayN]⟩,
+   ⟨rfl, fun i h => by simp [exObjTie] at h,
+    object_reading [99] (.comma (.const (.str [97]) rfl) (.const (.str [98]) rfl)) .iter .id⟩,
+   by decide +kernel, by decide +kernel, by decide +kernel, by decide +kernel⟩
+
+
+/-- `compile_refines_Spec_eval` about the program WITHOUT its `delay`s — the mini program whose
+    instruction list the `mini` stream compares with the real compiler's for the jq text: if the jq
+    program `def f0(g): bodies[0]; …; main` is read as `p` (objects as `delayN n (obj …)`), then running
+    the compiled `p.strip` returns exactly the output values of `Spec.eval` and then its error or none,
+    whenever the mini evaluator completes on `p` and `Spec.eval` ends definitely. -/
+theorem compile_refines_Spec_eval_stripped (p : Prog) (hwf : p.WF) (hord : ordered p = true) {bodies : List Query}
+    {main : Query} (htr : TrProg p bodies main) (cfg : Spec.Cfg) (hc : NoShadow cfg)
+    (s : Spec.St) (hs : Clean s) (n N : Nat) (hnd : ND (miniRun p n s.v).stop)
+    (hdef : Definite (specRunOf bodies main cfg N s).stop) :
+    ∃ e : Option MiniVM.Err,
+      Run (compileProg p.strip) (initCfg (compileProg p.strip) s.v) (specRunOf bodies main cfg N s).vals e ∧
+      (specRunOf bodies main cfg N s).stop = stopOfErr e := by
+  rw [compileProg_strip p hwf]
+  exact compile_refines_Spec_eval p hwf hord htr cfg hc s hs n N hnd hdef
+
+example : exObjTie.strip = ⟨[], .obj (.objSnocC (.objSnoc .objStart (.comma (.const (.str [97])) (.const (.str [98]))) .iter) (.str [99]) .id)⟩ :=
+  rfl
+
+/-- `def f0(g): {a: g}; f0(.[])`: an object construction inside a function body, its value the
+    parameter -/
+def exObjFn : Prog := ⟨[delayN 1 (.obj (.objSnocC .objStart (.str [97]) .param))], .call1 0 .iter⟩
+
+example : exObjFn.WF ∧ ordered exObjFn = true ∧
+    TrProg exObjFn [T (.object [.mk (.name [97]) (some (T (.func pname [])))])] (T (.func (fname 0) [.term [] (.mk .identity [.iter])])) ∧
+    ND (miniRun exObjFn 6 exInput2).stop ∧
+    ((specRunOf [T (.object [.mk (.name [97]) (some (T (.func pname [])))])] (T (.func (fname 0) [.term [] (.mk .identity [.iter])]))
+        Spec.cfg0 36 (inputSt exInput2)).vals == (miniRun exObjFn 6 exInput2).outs) = true ∧
+    (match runProg exObjFn 800 exInput2 with
+      | .finished [.obj [([97], .num (.int 7))], .obj [([97], .num (.int 8))]] none => true
+      | _ => false) = true ∧
+    (match runProg exObjFn.strip 800 exInput2 with
+      | .finished [.obj [([97], .num (.int 7))], .obj [([97], .num (.int 8))]] none => true
+      | _ => false) = true :=
+  ⟨⟨by simp [exObjFn, delayN, Q.Closed, Q.IsSpine], by simp [Q.Closed, exObjFn], by simp [Q.HasParam, exObjFn]⟩,
+   by decide,
+   ⟨rfl, fun i h => by
+      have : i = 0 := by simp [exObjFn] at h; omega
+      subst this
+      exact .obj (.objSnocC [97] .objStart .param) (by simp [Q.IsSpine]) (by simp) rfl,
+    .call1 0 .iter⟩,
+   by decide +kernel, by decide +kernel, by decide +kernel, by decide +kernel⟩
+
+/-- objects do not need the termination hypothesis either: `{("a","b"): .[], c: .}` calls no function -/
+example : callFree exObjTie = true := by decide
+
+
+/-- `. as $v0 | {"k": .[], a, "b", $v0}` -/
+def exObjShort : Prog :=
+  ⟨[], .bind 0 .id (delayN 4 (.obj (.objSnocC (.objSnocC (.objSnocC (.objSnocC .objStart (.str [107]) .iter) (.str [97]) (.index (.str [97])))
+          (.str [98]) (.index (.str [98]))) (.str (B (Spec.dropFirst (vname 0)))) (.var 0))))⟩
+
+def exObjShortSyntax : Query :=
+  .bind [] (T .identity) [.var (vname 0)]
+    (T (.object [.mk (.str (.lit [107])) (some (.term [] (.mk .identity [.iter]))), .mk (.name [97]) none,
+                 .mk (.str (.lit [98])) none, .mk (.var (vname 0)) none]))
+
+def exInput4 : V := .obj [([97], .num (.int 1)), ([98], .num (.int 2))]
+
+/-- on `{"a":1,"b":2}`: two objects `{"a":1,"b":2,"k":1|2,"v0":{"a":1,"b":2}}` — the machine, the mini
+    evaluator (fuel 8) and `Spec.eval` (fuel 48) agree -/
+example : exObjShort.WF ∧ TrProg exObjShort [] exObjShortSyntax ∧ ND (miniRun exObjShort 8 exInput4).stop ∧
+    ((specRunOf [] exObjShortSyntax Spec.cfg0 48 (inputSt exInput4)).vals == (miniRun exObjShort 8 exInput4).outs) = true ∧
+    (miniRun exObjShort 8 exInput4).outs.length = 2 ∧
+    (match runProg exObjShort 1000 exInput4 with
+      | .finished outs none => outs == (specRunOf [] exObjShortSyntax Spec.cfg0 48 (inputSt exInput4)).vals
+      | _ => false) = true :=
+  ⟨⟨by simp [exObjShort], by simp [Q.Closed, Q.IsSpine, exObjShort, delayN], by simp [Q.HasParam, exObjShort, delayN]⟩,
+   ⟨rfl, fun i h => by simp [exObjShort] at h, .bind 0 .id (object_reading_shorthands [107] [97] [98] 0 .iter)⟩,
+   by decide +kernel, by decide +kernel, by decide +kernel, by decide +kernel⟩
+
 
 end Gojq.C01Tie
